@@ -124,7 +124,8 @@ let rec print_sx (buf : Buffer.t) (v : sx) : unit =
   | SI (Zpos p) -> Buffer.add_string buf "0x"; Buffer.add_string buf (hex_of_pos p)
   | SI (Zneg p) -> Buffer.add_string buf "-0x"; Buffer.add_string buf (hex_of_pos p)
   | SB bs ->
-    let inrange b = match b with Z0 -> true | Zpos _ -> let i = small_int_of_z b in i >= 0 && i < 256 | Zneg _ -> false in
+    let rec pos_depth p = match p with XH -> 1 | XO q | XI q -> 1 + pos_depth q in
+    let inrange b = match b with Z0 -> true | Zpos p -> pos_depth p <= 8 | Zneg _ -> false in
     if List.for_all inrange bs then begin
       Buffer.add_char buf '#';
       List.iter (fun b -> Buffer.add_string buf (Printf.sprintf "%02x" (small_int_of_z b))) bs
